@@ -43,16 +43,17 @@ CANARY_NAMES = ['f', 'a', 'Y', 'i', 's', 'n', 'canary_fn']
 
 
 # --------------------------------------------------------------------------- independent reading of the script syntax
-def expected_statements(s):
+def _expected(s):
     """Statements by the documented syntax, independently of the implementation: comments start at '#'; blank lines are
     nothing; a line starting with three backticks opens a verbatim block that runs to the next such line; otherwise
-    physical lines are joined while a round bracket is open.  Returns (texts, unclosed_fence, clear) — `clear` is False
-    when this simple reading is ambiguous (brackets closing before they open or left open, a fence line inside brackets,
-    unbalanced brackets inside a fence): the statement-count clause is then not evaluated."""
+    physical lines are joined while a round bracket is open; what is still open at the end of the script is a statement too
+    (the parser must reject it, not lose it).  Returns (texts, unclosed_fence, reasons) — `reasons` names why this simple
+    reading is ambiguous: 'neg' a bracket closes before it opens, 'fence-in-brackets' a fence line inside brackets,
+    'fence-unbalanced' unbalanced brackets inside a fence."""
     texts, cur = [], []
     depth = 0
     in_fence = False
-    clear = True
+    reasons = set()
     fence_depth = 0
     for raw in s.splitlines():
         line = raw[:raw.find('#')].rstrip() if '#' in raw else raw
@@ -61,7 +62,7 @@ def expected_statements(s):
             if line.startswith('```'):
                 in_fence = False
                 if fence_depth != 0:
-                    clear = False
+                    reasons.add('fence-unbalanced')
                 texts.append('\n'.join(cur))
                 cur = []
             else:
@@ -69,7 +70,7 @@ def expected_statements(s):
             continue
         if line.startswith('```'):
             if depth > 0:
-                clear = False
+                reasons.add('fence-in-brackets')
             if not cur:
                 in_fence = True
                 fence_depth = 0
@@ -84,7 +85,7 @@ def expected_statements(s):
             elif ch == ')':
                 depth -= 1
                 if depth < 0:
-                    clear = False
+                    reasons.add('neg')
         if depth <= 0:
             texts.append('\n'.join(cur))
             cur = []
@@ -92,10 +93,16 @@ def expected_statements(s):
     if in_fence:
         texts.append('\n'.join(cur))
         if fence_depth != 0:
-            clear = False
+            reasons.add('fence-unbalanced')
     elif cur:
-        clear = False
-    return texts, in_fence, clear
+        texts.append('\n'.join(cur))        # brackets still open at the end: a pending statement
+    return texts, in_fence, reasons
+
+
+def expected_statements(s):
+    """(texts, unclosed_fence, clear): the statement-count clause of the oracle is evaluated only when `clear`."""
+    texts, unclosed, reasons = _expected(s)
+    return texts, unclosed, not reasons
 
 
 IDENT = re.compile(r'[A-Za-z_][A-Za-z_0-9]*')
@@ -104,8 +111,8 @@ IDENT = re.compile(r'[A-Za-z_][A-Za-z_0-9]*')
 def in_finding_class(s):
     """Syntactic membership in the guard class of a kept finding (the model mirrors a defect there: a K disagreement
     confined to such inputs is not reported, so that a later repair of the defect raises no alarm)."""
-    texts, unclosed, clear = expected_statements(s)
-    if unclosed or not clear:
+    texts, unclosed, reasons = _expected(s)
+    if unclosed or 'fence-in-brackets' in reasons:      # #24; the fence-inside-brackets ValueError
         return True
     norm = [re.sub(r'\s+', '', t) for t in texts]
     if len(set(norm)) < len(norm):
@@ -115,9 +122,9 @@ def in_finding_class(s):
             continue
         lhs = t.split('=', 1)[0]
         names = IDENT.findall(lhs)
-        if len(names) != 1:
+        if len(names) >= 2:
             return True
-        if re.search(r'(?<![A-Za-z_0-9.])' + re.escape(names[0]) + r'\s*\(', t):
+        if names and re.search(r'(?<![A-Za-z_0-9.])' + re.escape(names[0]) + r'\s*\(', t):
             return True
     return False
 
@@ -349,11 +356,41 @@ CORPUS = [
     'Y = 1 is 1', 'Y = (1 is 1) + (2 is 2)', 'Y = "\\d"', 'Y = 0777', 'Y = X +', 'Y = (X', 'Y = X)', ' Y = X', '\tY = X', 'Y = X\n Z = W',
     'Y = if', 'if = 1', 'Y = not_X + is_open + Pin', 'Y = X[1_0]', 'Y = X[1__0]', 'Y = X[\xa01]', 'Y = X[\xb2]', 'Y = X[+ 1]',
     'Y = X\x00', 'Y = X\r\nZ = W', 'Y = X\x0cZ = W', 'Y = X\x85Z = W', 'Y = \xe9if', 'Y = X # comment', '# only a comment', '', '   ', '\n\n',
+    "Y = X['#']", 'Y = "a#b" + X', '```\nx = 1  # c\n```', "`x = '#'`", 'Y = X #', '#Y = X', 'Y = X\n# c\nZ = W', 'Y = (X +\n\n  Z)', 'Y = (X +\n  # c\n  Z)',
+    'Y = (X +\n   \n  Z)\nW = 1', 'Y = X\n   \nZ = W', 'Y = X\n\t\nZ = W', 'Y = X \\', 'Y = X \\\n  + Z', ']', 'Y = X]', 'Y = ]', '[', 'Y = X[', 'Y = X[1', '}', '{', '>', '<', ')', '(',
+    '\tY = X', 'Y = X\n\tZ = W', 'Y\t=\tX', 'Y = X\x00Z', '\x00', 'Y = \xe9', '\xe9 = 1', 'Y = X\xa0', '\xa0Y = X', 'Y = X\x1cZ = W', 'Y = X\x0bZ = W',
+    '```\n(\n```', '```\n)\n```', '```\n(\n```\nY = X)', '````\nx = 1\n````', '```\nx = 1\n````', '````\nx = 1\n```', '```python\nx = 1\n```', '```\n```', '```\n\n```',
+    '```\nx = 1\n```\n```\nx = 1\n```', '`x = 1`\n`x = 1`', 'Y = X\n```\nz = 1\n```\nY = X',
     'status = 1', 'Y = lags', 'Y = {check}', '`x = 1; from os import *`',                          # NEW: accepted but cannot be built / instantiated
     'Y = ' + '+'.join(['X'] * 3000), 'Y = ' + '-' * 6000 + 'X',                                   # NEW: RecursionError / MemoryError from compile()
     'Y = ' + '(' * 250 + 'X' + ')' * 250, 'Y = X[' + '1' * 5000 + ']',
     'Y = X[' + '1' * 4300 + ']', 'Y = X[' + '1' * 4301 + ']', 'Y = X[ -' + '0' * 4299 + '_1 ]', 'Y = X[+' + '0' * 4300 + '_1]',   # int() digit limit
 ]
+
+
+LINE_INSERTS = ['', ' ', '\t', '# c', '   # c', '\\', '```', '````', '``', ')', '(', ']', '[', '}', '\x00', '\xa0', '\x0c', '\x1c', '\x85',
+                '\tZ = 1', ' W = 2', 'Z = "#"', "Z = X['#']", 'Z = 1 # c', '`z = 1 # c`', 'Z = X \\']
+
+
+def line_mutate(rng, s):
+    """physical-line level changes: insert / duplicate / delete / indent a line, glue a character to a line end,
+    turn a separator into another line break character"""
+    ls = s.split('\n')
+    r = rng.random()
+    i = rng.randrange(len(ls))
+    if r < 0.45:
+        ls.insert(rng.randrange(len(ls) + 1), rng.choice(LINE_INSERTS))
+    elif r < 0.55:
+        ls.insert(i, ls[i])
+    elif r < 0.65 and len(ls) > 1:
+        del ls[i]
+    elif r < 0.75:
+        ls[i] = rng.choice([' ', '\t', '  ', '\xa0']) + ls[i]
+    elif r < 0.9:
+        ls[i] = ls[i] + rng.choice(['\\', ' \\', '#', ' #', ')', '(', ']', '`', '\r', '\x00', ' ', '\t', '\x0b', '\x0c', '\x1c', '\x1d', '\x1e', '\x85'])
+    else:
+        return rng.choice(['\r', '\r\n', '\x0b', '\x0c', '\x1c', '\x85', '\n\n', '\n \n', '\n#\n']).join(ls)
+    return '\n'.join(ls)
 
 
 def gen(rng, tier):
@@ -376,6 +413,10 @@ def gen(rng, tier):
         m = pc.mutate(rng, s)
         if m != s:
             cases.append({'k': 's', 's': m})
+        if rng.random() < 0.6:
+            m = line_mutate(rng, s if rng.random() < 0.8 else m)
+            if m != s:
+                cases.append({'k': 's', 's': m})
     # random strings over the alphabet, longer than the exhaustive bound, biased to the parser's own characters
     for _ in range(1500 if tier == 'quick' else 30000):
         L = rng.randint(6, 14)
